@@ -56,6 +56,12 @@ VALUES = {
 }
 
 
+# further values for scalar tags: zero (a legitimate value for a frequency or temperature bound, and "falsy" in Python) and a negative one
+# (only tags for which zero is a legitimate value; for FPITCH, GV_DELTA_Q, FREQUENCY_CONVERSION_FACTOR, SIGMA, TSTEP zero is meaningless and the
+# option route maps it to "not given" while the tag route keeps 0.0: not compared)
+ALT_VALUES = {"FMIN": ["0", "0.0"], "FMAX": ["0", "-2.5"], "TMIN": ["0"], "TMAX": ["0"], "TDISPMAT_CIF": ["0"], "RANDOM_DISPLACEMENT_TEMPERATURE": ["0"],
+              "CUTOFF_FREQUENCY": ["0", "0.0"], "RANDOM_SEED": ["0"]}
+
 # rows that only take effect inside a run mode: the same run-mode setting is added to BOTH routes
 CONTEXT = {"QPOINTS_FORMAT": (["--qpoints", "0 0 0 1/2 0 0"], "QPOINTS = 0 0 0 1/2 0 0"), "BAND_FORMAT": (["--band", "0 0 0 1/2 0 0"], "BAND = 0 0 0 1/2 0 0"),
            "MESH_FORMAT": (["--mesh", "2", "2", "2"], "MESH = 2 2 2"), "BAND_LABELS": (["--band", "0 0 0 1/2 0 0"], "BAND = 0 0 0 1/2 0 0"),
@@ -199,8 +205,9 @@ def run_case(c):
                     ctx_cli, ctx_conf = CONTEXT.get(tag, ([], ""))
                     if "=" in tag_entry and tval.upper() in (".TRUE.", ".FALSE.") and tag == "TDISPMAT_CIF":
                         cli_val, tval = VALUES["TDISPMAT_CIF"]
-                    for opt in row["options"]:
-                        label = "%s <-> %s" % (opt, tag)
+                    variants = [(cli_val, tval, "")] + ([([v_], v_, " (value %s)" % v_) for v_ in ALT_VALUES.get(tag, [])] if "=" not in tag_entry else [])
+                    for opt, (cli_val, tval, vlabel) in [(o_, v_) for o_ in row["options"] for v_ in variants]:
+                        label = "%s <-> %s%s" % (opt, tag, vlabel)
                         try:
                             a = via_args(ctx_cli + [opt] + list(cli_val))
                         except SystemExit:
@@ -222,8 +229,10 @@ def run_case(c):
                         changed = [k for k in set(a) | set(default) if not same(a.get(k), default.get(k))]
                         if changed:
                             keys.append("set|%s|%s" % (c["command"], label))
-                        else:
+                        elif not vlabel:
                             obs.setdefault("rows_equal_to_default", []).append(label)
+                        if vlabel:
+                            obs["alt_values_compared"] = obs.get("alt_values_compared", 0) + 1
         finally:
             shutil.rmtree(tmp, ignore_errors=True)
         return {"viol": viol, "nontrivial": bool(keys), "keys": keys, "obs": obs, "evals": obs.get("rows_compared", 0),
@@ -769,7 +778,10 @@ def run_case(c):
                                   ("nomeshsym", ["--mesh", "2", "2", "3", "--nomeshsym"], "MESH = 2 2 3\nMESH_SYMMETRY = .FALSE."),
                                   ("dos", ["--mesh", "2", "2", "2", "--dos", "--sigma", "0.2", "--fpitch", "0.5"], "MESH = 2 2 2\nDOS = .TRUE.\nSIGMA = 0.2\nFPITCH = 0.5"),
                                   ("tdisp", ["--mesh", "2", "2", "2", "--td", "--tmax", "100", "--tstep", "50", "--fmin", "0.2"], "MESH = 2 2 2\nTDISP = .TRUE.\nTMAX = 100\nTSTEP = 50\nFMIN = 0.2"),
-                                  ("qpoints", ["--qpoints", "0.1 0.2 0.3", "--writedm"], "QPOINTS = 0.1 0.2 0.3\nWRITEDM = .TRUE.")):
+                                  ("qpoints", ["--qpoints", "0.1 0.2 0.3", "--writedm"], "QPOINTS = 0.1 0.2 0.3\nWRITEDM = .TRUE."),
+                                  ("dos-fmin0", ["--mesh", "2", "2", "2", "--dos", "--sigma", "0.2", "--fmin", "0", "--fmax", "12", "--fpitch", "0.5"], "MESH = 2 2 2\nDOS = .TRUE.\nSIGMA = 0.2\nFMIN = 0\nFMAX = 12\nFPITCH = 0.5"),
+                                  ("tprop-zero", ["--mesh", "2", "2", "2", "-t", "--tmin", "0", "--tmax", "100", "--tstep", "50", "--cutoff-freq", "0"], "MESH = 2 2 2\nTPROP = .TRUE.\nTMIN = 0\nTMAX = 100\nTSTEP = 50\nCUTOFF_FREQUENCY = 0"),
+                                  ("tdisp-fmin0", ["--mesh", "2", "2", "2", "--td", "--tmax", "100", "--tstep", "50", "--fmin", "0"], "MESH = 2 2 2\nTDISP = .TRUE.\nTMAX = 100\nTSTEP = 50\nFMIN = 0")):
             outs = {}
             for route in ("option", "conf"):
                 for fn in ROUTE_FILES:
